@@ -38,14 +38,15 @@ def gen_program(rng, n, p_fail=0.15, p_batch=0.3, p_ctx=0.3, max_kids=3):
                         kids.append((max(cands) if rng.random() < 0.5 else rng.choice(cands), ov))
             else:
                 for _ in range(nk):
-                    ov = rng.choice([0, 1, 2]) if rng.random() < p_ctx else None
+                    ov = rng.choice([0, 1, 2, 3]) if rng.random() < p_ctx else None
                     kids.append((rng.choice(cands), ov))
         prog[i] = {"fn": fn, "fails": fails, "batch": batch and len(kids) > 0, "kids": kids}
     return prog
 
 
 def ctx_dict(c):
-    return None if c is None else ({} if c == 0 else {"c": c})
+    # 0: the explicit empty dictionary; 3: an entry whose value is None (not the same context as the empty one)
+    return None if c is None else ({} if c == 0 else ({"c": None} if c == 3 else {"c": c}))
 
 
 def spec_of(prog, i, memo=None):
@@ -155,7 +156,8 @@ class Runner:
         for x in mm.invocation_metadata.invocations:
             kw = x.effective_kwargs if hasattr(x, "effective_kwargs") else x.kwargs
             sid = (kw.get("spec") or (x.args[0] if x.args else {})).get("id")
-            c = (x.context_args or {}).get("c", 0)
+            ca = x.context_args or {}
+            c = (3 if ca["c"] is None else ca["c"]) if "c" in ca else 0
             invs.append((sid, c))
         deps = sorted({FN_NAMES.index(d.qualified_name.split(":")[-1].split("#")[0]) for d in mm.function_dependencies})
         return {"invocations": invs, "deps": deps, "result_type": mm.invocation_metadata.result_type.name}
